@@ -49,7 +49,7 @@ def norm(t):
     return z3.simplify(t, som=True)
 
 
-def ground_axioms(terms, max_pairs=12, rounds=1):
+def ground_axioms(terms, max_pairs=30, rounds=1):
     apps = _apps(terms)
     ax = []
     exp, log, sqrt, erf, erfcx, cos, sin = (UF[n] for n in ("exp", "log", "sqrt", "erf", "erfcx", "cos", "sin"))
